@@ -134,7 +134,7 @@ package lnwallet
 //@   site call addCommitment as htlcsigs: assert i == len(verifyJobs)
 //@
 //@ func (lc *LightningChannel) SettleHTLC
-//@   props C08
+//@   props C08 C01
 //@   site call lookupHtlc: assert arg(0) == lc.updateLogs.Remote && arg(i) == htlcIndex
 //@   site call htlcHasModification: assert arg(0) == lc.updateLogs.Remote && arg(i) == htlcIndex
 //@   site call Sum256: assert arg(0) == sliceof(preimage)
@@ -145,7 +145,7 @@ package lnwallet
 //@   site return nil: assert called(appendUpdate) && called(markHtlcModified)
 //@
 //@ func (lc *LightningChannel) ReceiveHTLCSettle
-//@   props C08
+//@   props C08 C01
 //@   site call lookupHtlc: assert arg(0) == lc.updateLogs.Local && arg(i) == htlcIndex
 //@   site call htlcHasModification: assert arg(0) == lc.updateLogs.Local && arg(i) == htlcIndex
 //@   site call Sum256: assert arg(0) == sliceof(preimage)
@@ -156,7 +156,7 @@ package lnwallet
 //@   site return nil: assert called(appendUpdate) && called(markHtlcModified)
 //@
 //@ func (lc *LightningChannel) FailHTLC
-//@   props C08
+//@   props C08 C01
 //@   site call lookupHtlc: assert arg(0) == lc.updateLogs.Remote && arg(i) == htlcIndex
 //@   site call htlcHasModification: assert arg(0) == lc.updateLogs.Remote && arg(i) == htlcIndex
 //@   site call appendUpdate: assert ret(lookupHtlc) != nil && !ret(htlcHasModification) &&
@@ -166,7 +166,7 @@ package lnwallet
 //@   site return nil: assert called(appendUpdate) && called(markHtlcModified)
 //@
 //@ func (lc *LightningChannel) MalformedFailHTLC
-//@   props C08
+//@   props C08 C01
 //@   site call lookupHtlc: assert arg(0) == lc.updateLogs.Remote && arg(i) == htlcIndex
 //@   site call htlcHasModification: assert arg(0) == lc.updateLogs.Remote && arg(i) == htlcIndex
 //@   site call appendUpdate: assert ret(lookupHtlc) != nil && !ret(htlcHasModification) &&
@@ -176,7 +176,7 @@ package lnwallet
 //@   site return nil: assert called(appendUpdate) && called(markHtlcModified)
 //@
 //@ func (lc *LightningChannel) ReceiveFailHTLC
-//@   props C08
+//@   props C08 C01
 //@   site call lookupHtlc: assert arg(0) == lc.updateLogs.Local && arg(i) == htlcIndex
 //@   site call htlcHasModification: assert arg(0) == lc.updateLogs.Local && arg(i) == htlcIndex
 //@   site call appendUpdate: assert ret(lookupHtlc) != nil && !ret(htlcHasModification) &&
@@ -490,3 +490,40 @@ package lnwallet
 //@   loop 4 step totalOut == swrap(prev(totalOut) + txOut.Value, 64)
 //@   site return nil: assert swrap(totalOut + fee, 64) <= cb.chanState.Capacity && result0.fee == fee &&
 //@        result0.ourBalance == ourAfter && result0.theirBalance == theirAfter
+//@
+//@ func HtlcIsDust
+//@   props C01
+//@   let successTx = (incoming && whoseCommit == lntypes.Local) || (!incoming && whoseCommit == lntypes.Remote)
+//@   site call HtlcSuccessFee: assert successTx && arg(0) == chanType && arg(1) == feePerKw
+//@   site call HtlcTimeoutFee: assert !successTx && (whoseCommit == lntypes.Local || whoseCommit == lntypes.Remote) &&
+//@        arg(0) == chanType && arg(1) == feePerKw
+//@   ensures (whoseCommit == lntypes.Local || whoseCommit == lntypes.Remote) ==>
+//@           (result <==> swrap(htlcAmt - ite(successTx, ite(incoming, ret(HtlcSuccessFee, 0), ret(HtlcSuccessFee, 1)),
+//@                                           ite(incoming, ret(HtlcTimeoutFee, 0), ret(HtlcTimeoutFee, 1))), 64) < dustLimit)
+//@
+//@ func CreateCommitTx
+//@   props C01
+//@   site call CommitScriptToSelf: assert arg(0) == chanType && arg(1) == initiator && arg(2) == keyRing.ToLocalKey &&
+//@        arg(3) == keyRing.RevocationKey && arg(4) == localChanCfg.CsvDelay && arg(5) == leaseExpiry
+//@   site call CommitScriptToRemote: assert arg(0) == chanType && arg(1) == initiator && arg(2) == keyRing.ToRemoteKey && arg(3) == leaseExpiry
+//@   site call AddTxOut nth 0: assert amountToLocal >= localChanCfg.DustLimit && arg(1).Value == amountToLocal
+//@   site call AddTxOut nth 1: assert amountToRemote >= localChanCfg.DustLimit && arg(1).Value == amountToRemote
+//@   site call AddTxOut nth 2: assert (amountToLocal >= localChanCfg.DustLimit || numHTLCs > 0) && arg(1).Value == 330
+//@   site call AddTxOut nth 3: assert (amountToRemote >= localChanCfg.DustLimit || numHTLCs > 0) && arg(1).Value == 330
+//@
+//@ func genRemoteHtlcSigJobs
+//@   props C01
+//@   requires chanState != nil && keyRing != nil && remoteCommitView != nil
+//@   loop * havoc
+//@   site call HtlcIsDust nth 0: assert arg(0) == old(chanState.ChanType) && arg(1) && arg(2) == lntypes.Remote && arg(3) == old(remoteCommitView.feePerKw) &&
+//@        arg(4) == fdiv(htlc.Amount, 1000) && arg(5) == old(chanState.RemoteChanCfg.DustLimit)
+//@   site call HtlcIsDust nth 1: assert arg(0) == old(chanState.ChanType) && !arg(1) && arg(2) == lntypes.Remote && arg(3) == old(remoteCommitView.feePerKw) &&
+//@        arg(4) == fdiv(htlc.Amount, 1000) && arg(5) == old(chanState.RemoteChanCfg.DustLimit)
+//@   site call CreateHtlcTimeoutTx: assert !ret(HtlcIsDust, 0) && arg(0) == old(chanState.ChanType) && arg(1) == !old(chanState.IsInitiator) &&
+//@        arg(2).Index == wrap(htlc.remoteOutputIndex, 32) && arg(3) == swrap(fdiv(htlc.Amount, 1000) - ret(HtlcTimeoutFee), 64) &&
+//@        arg(4) == htlc.Timeout && arg(5) == old(chanState.RemoteChanCfg.CsvDelay) && arg(6) == leaseExpiry &&
+//@        arg(7) == keyRing.RevocationKey && arg(8) == keyRing.ToLocalKey
+//@   site call CreateHtlcSuccessTx: assert !ret(HtlcIsDust, 1) && arg(0) == old(chanState.ChanType) && arg(1) == !old(chanState.IsInitiator) &&
+//@        arg(2).Index == wrap(htlc.remoteOutputIndex, 32) && arg(3) == swrap(fdiv(htlc.Amount, 1000) - ret(HtlcSuccessFee), 64) &&
+//@        arg(4) == old(chanState.RemoteChanCfg.CsvDelay) && arg(5) == leaseExpiry &&
+//@        arg(6) == keyRing.RevocationKey && arg(7) == keyRing.ToLocalKey
